@@ -29,6 +29,7 @@ EXPLANATION = (
     "semantics, value-dependent overlap arithmetic).")
 EXPLANATION += (" R-C14-3: histogram combination aggregates the concatenated histograms per class with the requested method; the overlap share telescopes on every ordering of the interval bounds. R-C14-4: the range/mean histogram is fed with 2*amplitude and meanstress on both orderings of from/to, the range histogram counts 2*amplitude of the same collective, and re-binning selects each level's binning by the level's name.")
 EXPLANATION += (' R-C14-5: the histogram utilities (re-binning, combination) apply no constant positional access or order-sensitive operation to the source histogram or its index (order-class analysis), so the result does not depend on the order in which the source classes are listed.')
+EXPLANATION += (" R-C14-6: np.histogram / np.histogram2d in LoadCollective.range_histogram and .histogram are called with weights derived from the collective's cycles.")
 ASSUMPTIONS = ["DataFrame.max(axis=1)/min(axis=1) over the two columns is the row-wise max/min", "range >= 0"]
 
 
@@ -151,6 +152,34 @@ def run(ctx):
     ctx.attempt(_r3)
     ctx.attempt(_r4)
     ctx.attempt(_r5)
+    ctx.attempt(_r6)
+
+
+def _r6(ctx):
+    """A collective may carry a cycles column (each member counts that many cycles).  Every histogramming call of the
+    collective (np.histogram / np.histogram2d) must therefore weight its samples with the collective's cycles; an unweighted
+    call counts rows, not cycles."""
+    prog = ctx.prog
+    ctx.rule("R-C14-6", floor=2, what="histograms of a collective are weighted with its cycles")
+    lc = prog.cls(LC)
+    n = 0
+    for name in ("range_histogram", "histogram"):
+        f = prog.lookup_method(lc, name)
+        reads_cycles = any((is_self_attr(x, "cycles")) or (isinstance(x, ast.Subscript) and is_self_attr(x.value, "_obj") and
+                                                           const_value(x.slice) == "cycles") for x in ast.walk(f.node))
+        for c in calls_in(f.node):
+            if (call_name(c) or "") in ("np.histogram", "np.histogram2d", "np.histogramdd"):
+                n += 1
+                w = next((k.value for k in c.keywords if k.arg == "weights"), None)
+                if w is not None and reads_cycles and not (isinstance(w, ast.Constant) and w.value is None):
+                    ctx.holds(f, c, "%s: %s is weighted (weights=%s) and the method reads the collective's cycles" %
+                              (name, call_name(c), norm_text(w)))
+                else:
+                    ctx.violated(f, c, "%s: %s counts the rows of the collective, not its cycles: a member with cycles = 10 is "
+                                 "counted once (no weights= derived from the cycles column)" % (name, norm_text(c)[:70]),
+                                 text="unweighted " + name)
+    if n == 0:
+        raise AnalysisError("no histogram call found in LoadCollective")
 
 
 def _r5(ctx):
@@ -700,6 +729,15 @@ AP = "src/pylife/stress/collective/abstract_load_collective.py"
 
 def variants():
     out = []
+
+    def unweighted(tree):
+        f = find_func(tree, "LoadCollective.histogram")
+        for c in calls_in(f):
+            if call_name(c) == "np.histogram2d":
+                c.keywords = [k for k in c.keywords if k.arg != "weights"]
+                return True
+        return False
+    out.append(witness("2-D histogram counts rows instead of cycles", CP, unweighted, "R-C14-6"))
 
     def extent_by_position(tree):
         f = find_func(tree, "_do_rebin_histogram")
